@@ -191,6 +191,8 @@ PROPS = {
             {"test": "TestC03BanExtends", "kind": "plain"},
             {"test": "TestC03History", "checks": 30000, "shards": 3},
             {"test": "TestC03Concurrent", "checks": 240, "shards": 8, "gomaxprocs": [4, 16]},
+            {"test": "TestC03Creators", "checks": 2000, "shards": 2, "gomaxprocs": [4, 16]},
+            {"test": "TestC03Creators", "checks": 600, "shards": 2, "race": True, "gomaxprocs": [4, 16]},
         ],
         "thorough": [
             {"test": "TestC03Route", "checks": 1600000, "shards": 8},
@@ -198,6 +200,8 @@ PROPS = {
             {"test": "TestC03BanExtends", "kind": "plain"},
             {"test": "TestC03History", "checks": 1600000, "shards": 8},
             {"test": "TestC03Concurrent", "checks": 8000, "shards": 16, "gomaxprocs": [4, 16, 2]},
+            {"test": "TestC03Creators", "checks": 200000, "shards": 4, "gomaxprocs": [4, 16, 2]},
+            {"test": "TestC03Creators", "checks": 40000, "shards": 4, "race": True, "gomaxprocs": [4, 16, 2]},
         ],
         "assumptions": [
             "a route is only judged when its own scaffolding does not use the banned name and when the same template compiles in a set without the ban",
@@ -330,14 +334,16 @@ PROPS = {
             {"test": "TestC02Program", "checks": 40000, "shards": 4},
             {"test": "TestC02FilterEnum", "kind": "enum", "shards": 2},
             {"test": "TestC02Filter", "checks": 10000},
+            {"test": "TestC02PartialEnum", "kind": "enum"},
         ],
         "thorough": [
             {"test": "TestC02Program", "checks": 2400000, "shards": 16},
             {"test": "TestC02FilterEnum", "kind": "enum", "shards": 4},
             {"test": "TestC02Filter", "checks": 200000, "shards": 2},
+            {"test": "TestC02PartialEnum", "kind": "enum"},
         ],
         "assumptions": [
-            "opt-outs left out by construction: safe, truncatechars_html, truncatewords_html, autoescape off, Go-side AsSafeValue; lorem p (writes its own <p> tags)",
+            "opt-outs left out by construction: safe, truncatechars_html, truncatewords_html, autoescape off, Go-side AsSafeValue; lorem p (writes its own <p> tags) - except in C02.partial, where safe / a safe-marked value is written on a harmless part next to tainted text",
             "the engine's constant '<type Value>' renderings of containers carry no context text and are deleted before the output is examined (a rendering that contained any of the five characters would not match and would be flagged)",
             "the filter tag is used only with filters that neither create markup nor can cut an entity in two, over bodies that print scalars",
             "an execution error renders nothing; error texts are not template output",
@@ -351,10 +357,12 @@ PROPS = {
         "quick": [
             {"test": "TestC01Total", "checks": 48000, "shards": 8},
             {"test": "TestC01Seeds", "kind": "enum"},
+            {"test": "TestC01Grid", "kind": "enum", "shards": 2},
         ],
         "thorough": [
             {"test": "TestC01Total", "checks": 4800000, "shards": 16, "timeout": 7200},
             {"test": "TestC01Seeds", "kind": "enum"},
+            {"test": "TestC01Grid", "kind": "enum", "shards": 2},
         ],
         "fuzz": [{"fuzz": "FuzzC01", "fuzztime": "120s", "timeout": 1800}],
         "assumptions": [
